@@ -22,10 +22,11 @@ func MakeEmbeddedGenesisConfig() (store.Genesis, error) {
 	return NewGenesis(embeddedGenesis), nil
 }
 
-func ReadGenesisConfigFromFile(genesisFile string) (store.Genesis, error) {
+func ReadGenesisConfigFromFile(genesisFile string) (result store.Genesis, resultErr error) {
 	defer func() {
 		if err := recover(); err != nil {
 			log.Crit("invalid genesis file", "method", "readGenesis", "genesisFile", genesisFile)
+			result, resultErr = nil, ErrInvalidGenesisConfig
 		}
 	}()
 
